@@ -2711,9 +2711,12 @@ class Partitions(Expr):
 
     def _simplify_down(self):
         from dask_expr import SetIndexBlockwise
+        from dask_expr._indexing import LocBase
 
+        # MapOverlap and loc on known divisions are Blockwise subclasses whose
+        # output partition i does not only depend on input partition i
         if isinstance(self.frame, Blockwise) and not isinstance(
-            self.frame, (BlockwiseIO, Fused, SetIndexBlockwise)
+            self.frame, (BlockwiseIO, Fused, SetIndexBlockwise, MapOverlap, LocBase)
         ):
             operands = [
                 (
